@@ -83,3 +83,169 @@ def model_float(m, x):
     bv = m.eval(z3.fpToIEEEBV(v), model_completion=True)
     import struct
     return struct.unpack('<d', struct.pack('<Q', bv.as_long()))[0]
+
+
+# --------------------------------------------------------------------------- rounding-error abstraction (standard model)
+U53 = z3.RealVal(1) / (2 ** 53)
+
+
+def _pow2(v):
+    try:
+        f = float(v)
+    except Exception:
+        return False
+    if f == 0:
+        return False
+    m, _ = np.frexp(abs(f))
+    return m == 0.5
+
+
+class SRd(symx.Sym):
+    """binary64 value over-approximated in real arithmetic: every + - * / returns exact*(1+d) with a fresh |d| <= 2^-53
+    (standard model of rounding to nearest; sound for results in the normal range, and for add/sub also in the subnormal
+    range, where they are exact).  Multiplication / division by a power of two and adding zero are exact.  A property proved
+    for all d holds for the doubles; a counter-model is only a candidate and must be witnessed in binary64 (class SF)."""
+    __slots__ = ('t',)
+
+    def __init__(self, t):
+        self.t = t
+
+    @staticmethod
+    def _lift(v):
+        if isinstance(v, SRd):
+            return v.t, False
+        if isinstance(v, (bool, np.bool_)):
+            raise TypeError('bool in arithmetic')
+        if isinstance(v, (int, np.integer)):
+            return z3.RealVal(int(v)), int(v) == 0
+        if isinstance(v, (float, np.floating)):
+            from fractions import Fraction
+            return z3.RealVal(str(Fraction(float(v)))), float(v) == 0.0
+        raise TypeError('cannot lift %r' % type(v))
+
+    # magnitude bound B of the values whose rounding is modelled: with |exact| <= B the rounding error is at most 2^-53 * B in
+    # absolute value, which keeps the queries linear.  None selects the relative model exact*(1+d) (non-linear).
+    BOUND = None
+
+    @staticmethod
+    def _round(exact):
+        ctx = symx.Ctx.cur
+        d = z3.Real(ctx.fresh_name('rd'))
+        if SRd.BOUND is None:
+            ctx.assume(z3.And(d >= -U53, d <= U53))
+            return SRd(exact * (1 + d))
+        e = U53 * SRd.BOUND
+        ctx.assume(z3.And(d >= -e, d <= e))
+        return SRd(exact + d)
+
+    def _addsub(self, o, sign, swap):
+        b, zero = self._lift(o)
+        if zero:
+            return self if (sign > 0 or not swap) else SRd(-self.t)
+        a = self.t
+        if swap:
+            a, b = b, a
+        return self._round(a + b if sign > 0 else a - b)
+
+    def __add__(self, o): return self._addsub(o, 1, False)
+    def __radd__(self, o): return self._addsub(o, 1, True)
+    def __sub__(self, o): return self._addsub(o, -1, False)
+    def __rsub__(self, o): return self._addsub(o, -1, True)
+
+    def __mul__(self, o):
+        b, _ = self._lift(o)
+        if not isinstance(o, SRd) and _pow2(o):
+            return SRd(self.t * b)
+        return self._round(self.t * b)
+    __rmul__ = __mul__
+
+    def __truediv__(self, o):
+        b, _ = self._lift(o)
+        if not isinstance(o, SRd) and _pow2(o):
+            return SRd(self.t / b)
+        return self._round(self.t / b)
+
+    def __rtruediv__(self, o):
+        a, _ = self._lift(o)
+        return self._round(a / self.t)
+
+    def __neg__(self): return SRd(-self.t)
+    def __pos__(self): return self
+    def __lt__(self, o): return symx.mkbool(self.t < self._lift(o)[0])
+    def __le__(self, o): return symx.mkbool(self.t <= self._lift(o)[0])
+    def __gt__(self, o): return symx.mkbool(self.t > self._lift(o)[0])
+    def __ge__(self, o): return symx.mkbool(self.t >= self._lift(o)[0])
+    def __eq__(self, o): return symx.mkbool(self.t == self._lift(o)[0])
+    def __ne__(self, o): return symx.mkbool(self.t != self._lift(o)[0])
+    __hash__ = None
+
+    def __float__(self):
+        raise symx.Abort('float() of a rounded-real proxy')
+
+    def __int__(self):
+        raise symx.Abort('int() of a rounded-real proxy')
+
+    def __repr__(self):
+        return '<rd %s>' % str(self.t)[:60]
+
+
+class SEx(SRd):
+    """same interface, exact real arithmetic (no rounding terms): the reference run"""
+    __slots__ = ()
+
+    @staticmethod
+    def _round(exact):
+        return SEx(exact)
+
+    def __neg__(self): return SEx(-self.t)
+
+    def __mul__(self, o):
+        return SEx(self.t * self._lift(o)[0])
+    __rmul__ = __mul__
+
+    def __truediv__(self, o):
+        return SEx(self.t / self._lift(o)[0])
+
+
+class FPNumpy:
+    """the numpy names a kernel under binary64 / rounded-real analysis uses on proxies; everything else is numpy's"""
+
+    def __getattr__(self, name):
+        return getattr(np, name)
+
+    @staticmethod
+    def empty(shape, dtype=None):
+        return np.empty(shape, dtype=object)
+
+    @staticmethod
+    def zeros(shape, dtype=None):
+        a = np.empty(shape, dtype=object)
+        a[...] = 0.0
+        return a
+
+    @staticmethod
+    def array(x, dtype=None):
+        x = list(x) if not isinstance(x, np.ndarray) else x
+        a = np.empty(len(x), dtype=object)
+        for i, v in enumerate(x):
+            a[i] = v
+        return a
+
+    @staticmethod
+    def linspace(start, stop, num=50, endpoint=True):
+        """numpy.linspace's algorithm (numpy/core/function_base.py): step = (stop-start)/div; y = arange(num)*step + start;
+        the last point is set to stop"""
+        num = int(num)
+        div = num - 1 if endpoint else num
+        out = np.empty(num, dtype=object)
+        if num == 0:
+            return out
+        if div > 0:
+            step = (stop - start) / div
+            for i in range(num):
+                out[i] = start + 0.0 if i == 0 else (float(i) * step + start)
+        else:
+            out[0] = start + 0.0
+        if endpoint and num > 1:
+            out[-1] = stop
+        return out
